@@ -50,7 +50,7 @@ def sweep(h, rep, jobs, label, stats, on_result=None, max_report=3):
             h.cleanup(r)
     # report: implementation crashes first; then programs on which the reference evaluator says the behaviour is wrong (judged on up
     # to JUDGE_MAX divergent programs); then plain broken-tie divergences
-    JUDGE_MAX = 12
+    JUDGE_MAX = 40
     judged = []
     for n, (j, r, st, det, io) in enumerate(pending):
         i_crashed = io["kind"].startswith(("sanitizer", "signal", "assert", "crash"))
